@@ -1142,6 +1142,10 @@ fn part_a(rep: &mut Report) {
     sweep_pairs("pairs-v4", false, &kinds, rep, &mut sigs);
     let ek = product(&reduced_evpn());
     sweep_pairs("pairs-evpn", true, &ek, rep, &mut sigs);
+    // every AS_PATH shape (all four segment types, empty path, > 255 hops) against every other,
+    // with a later step (eBGP/iBGP, router-id) able to overturn a wrong length
+    let shapes = product(&dom([&[0], &[0], &[1], &[0, 1, 2, 3, 4, 5, 6, 7, 8], &[0], &[0, 2], &[0], &[0], &[0, 1], &[0]]));
+    sweep_pairs("aspath-shapes-v4", false, &shapes, rep, &mut sigs);
     sweep_triples("triples-v4", false, &cover(false, thorough), rep, &mut sigs);
     sweep_triples("triples-evpn", true, &cover(true, false), rep, &mut sigs);
     if thorough {
